@@ -14,7 +14,9 @@ from __future__ import annotations
 
 import collections.abc as cabc
 import dataclasses
+import decimal
 import enum
+import fractions
 import functools
 import itertools
 import operator
@@ -368,7 +370,9 @@ class Values:
         self.nodes = nodes
         self.node_list = list(nodes.values())
         self.atoms = [True, False, 0, 1, 2, -1, 7, 1.5, 0.0, 1.0, 2.0, "", "a", "b", "ab", "1", b"", b"a", b"\x01\x02",
-                      None, Color.RED, Color.GREEN, Shade.RED, Shade.DARK, NO_ORIGIN, CODE_ORIGIN] + self.node_list
+                      None, Color.RED, Color.GREEN, Shade.RED, Shade.DARK, NO_ORIGIN, CODE_ORIGIN,
+                      # members of the numeric tower that are neither int nor float (only ints and floats conform to `float`)
+                      fractions.Fraction(1, 2), decimal.Decimal("1.5")] + self.node_list
         self.hashable_atoms = list(self.atoms)
 
     def node_of(self, name: str, exact: bool = False):
